@@ -151,6 +151,8 @@ class DnsRecordDnskey(ParsableBase, Serializable):
 
         mpint_length = 64 + key_parser['t'] * 8
         key_parser.parse_mpint('p', mpint_length)
+        if key_parser['p'].bit_length() != mpint_length * 8:
+            raise InvalidValue(key_parser['p'], cls, 'p')
         key_parser.parse_mpint('g', mpint_length)
         key_parser.parse_mpint('y', mpint_length)
 
